@@ -275,8 +275,115 @@ func buildSweeps(thorough bool, r *report.R) []sweep {
 			Files: []FileField{{fnames[i[0]], []FileSpec{f}}}}
 		return withAO(c, authsN[i[5]], obs[i[6]]), true
 	}})
+
+	// ---- D: environment. Sources with more capabilities than io.Reader, faults, real FIFOs ----
+	// one misbehaviour of each kind at a time, crossed with the Close behaviour (so up to two per source)
+	type misb struct {
+		needs string // capability the misbehaviour needs
+		env   SrcEnv
+	}
+	misbs := []misb{{"", SrcEnv{}},
+		{"S", SrcEnv{Seek: "fail"}}, {"S", SrcEnv{Seek: "lie-nomove"}}, {"S", SrcEnv{Seek: "lie-moved-err"}},
+		{"A", SrcEnv{ReadAt: "fail"}}, {"W", SrcEnv{WriteTo: "fail"}}}
+	faultReads := []int{1, 2, 3, 4, 5}
+	if thorough {
+		faultReads = []int{1, 2, 3, 4, 5, 6, 7}
+	}
+	for _, k := range faultReads {
+		for _, st := range []string{"sticky", "once-then-eof", "once-then-continue"} {
+			misbs = append(misbs, misb{"", SrcEnv{FaultAt: k, FaultStyle: st}})
+		}
+	}
+	capsAxis := []string{"", "S", "SA", "W", "SAW"}
+	closeAxis := []string{"", "err", "err-if-partial", "err-if-complete"}
+	chunkAxis := []int{0, 200}
+	elens := []int{0, 100, 600, 40000}
+	if thorough {
+		elens = []int{0, 1, 100, 511, 512, 513, 600, 40000}
+	}
+	authsD := []authMode{{"none", 0}, {"op", 1}, {"op", 2}}
+	if thorough {
+		authsD = []authMode{{"none", 0}, {"op", 0}, {"op", 1}, {"op", 2}, {"default", 3}}
+	}
+	mkEnv := func(caps string, m misb, cl string, chunk int) (SrcEnv, bool) {
+		for _, need := range m.needs {
+			found := false
+			for _, have := range caps {
+				found = found || have == need
+			}
+			if !found {
+				return SrcEnv{}, false // e.g. a failing Seek on a source without Seek
+			}
+		}
+		e := m.env
+		e.Caps, e.Close, e.Chunk = caps, cl, chunk
+		return e, true
+	}
+	secondFile := []bool{false}
+	if thorough {
+		secondFile = []bool{false, true}
+	}
+	r.Set("sweepD_environment", map[string]any{"capabilities": capsAxis, "misbehaviours": misbs, "close": closeAxis, "chunk": chunkAxis,
+		"lengths": elens, "auth": authsD, "after_close": []string{"", "error"}, "fifo": "real named pipe (syscall.Mkfifo) opened as *os.File, fed by a goroutine"})
+	// D1: one scripted upload file (undeclared: sniffed; or declared), optionally followed by a plain second file
+	sweeps = append(sweeps, sweep{"D1:upload-source-environment", []int{len(capsAxis), 2, len(elens), len(chunkAxis), len(misbs), len(closeAxis), len(secondFile), len(authsD), len(obs)}, func(i []int) (Case, bool) {
+		env, ok := mkEnv(capsAxis[i[0]], misbs[i[4]], closeAxis[i[5]], chunkAxis[i[3]])
+		if !ok {
+			return Case{}, false
+		}
+		f := FileSpec{Dir: "up/", Base: "env.bin", Kind: "png", Len: elens[i[2]], Src: "env", Env: &env}
+		if i[1] == 1 {
+			f.Declared = "text/csv"
+		}
+		files := []FileSpec{f}
+		if secondFile[i[6]] {
+			files = append(files, FileSpec{Base: "after.txt", Kind: "ascii", Len: 600, Src: "named-full"})
+		}
+		c := Case{Payload: "form", Media: runtime.MultipartFormMime, Form: []FormField{{"a", []S{"v"}}}, Files: []FileField{{"f", files}}}
+		return withAO(c, authsD[i[7]], obs[i[8]]), true
+	}})
+	// D2: scripted reader payloads (with and without Close)
+	afterClose := []string{"", "error"}
+	sweeps = append(sweeps, sweep{"D2:reader-payload-environment", []int{2, len(capsAxis), len(elens), len(chunkAxis), len(misbs), len(closeAxis), len(afterClose), len(authsD), len(obs)}, func(i []int) (Case, bool) {
+		env, ok := mkEnv(capsAxis[i[1]], misbs[i[4]], closeAxis[i[5]], chunkAxis[i[3]])
+		if !ok {
+			return Case{}, false
+		}
+		env.Closer = i[0] == 1
+		env.AfterClose = afterClose[i[6]]
+		if !env.Closer && (env.Close != "" || env.AfterClose != "") {
+			return Case{}, false // no Close method: nothing to script
+		}
+		c := Case{Payload: "reader", Media: runtime.DefaultMime, Reader: &ReaderSpec{Flavor: "env", Kind: "bin", Len: elens[i[2]], Env: &env}}
+		return withAO(c, authsD[i[7]], obs[i[8]]), true
+	}})
+	// D3: real FIFOs (Seek and ReadAt fail with ESPIPE, reads are short) as upload file and as reader payload; regular files as control
+	flens := []int{0, 1, 100, 511, 512, 513, 600, 40000, 70000}
+	fsrc := []string{"fifo", "osfile"}
+	r.Set("sweepD3_fifo", map[string]any{"lengths": flens, "sources": fsrc, "as": []string{"upload file undeclared", "upload file declared", "two uploads", "reader payload"}})
+	sweeps = append(sweeps, sweep{"D3:fifo", []int{4, len(fsrc), len(flens), len(ckindsD3), len(authsD), len(obs)}, func(i []int) (Case, bool) {
+		n, k, srcKind := flens[i[2]], ckindsD3[i[3]], fsrc[i[1]]
+		var c Case
+		switch i[0] {
+		case 3:
+			c = Case{Payload: "reader", Media: runtime.DefaultMime, Reader: &ReaderSpec{Flavor: srcKind, Kind: k, Len: n}}
+		default:
+			f := FileSpec{Base: "pipe.bin", Kind: k, Len: n, Src: srcKind}
+			if i[0] == 1 {
+				f.Declared = "text/csv"
+			}
+			files := []FileSpec{f}
+			if i[0] == 2 {
+				files = append(files, FileSpec{Base: "second.bin", Kind: k, Len: n, Src: srcKind})
+			}
+			c = Case{Payload: "form", Media: runtime.MultipartFormMime, Files: []FileField{{"f", files}}}
+		}
+		return withAO(c, authsD[i[4]], obs[i[5]]), true
+	}})
 	return sweeps
 }
+
+var ckindsD3 = []string{"ascii", "png", "bin"}
 
 func show(c Case) string {
 	b, _ := json.Marshal(c)
@@ -388,5 +495,5 @@ func main() {
 		pprof.StopCPUProfile()
 	}
 	exhaustive := !hung.Load()
-	r.Finish("five full products (A nil/value/reader payloads; B URL-encoded forms; C1 one-file contents; C2 form structures; C3 names), each tuple executed once on Runtime.CreateHttpRequest and the sent body read to EOF; non-trivial = a non-nil payload produced a request whose sent bytes were parsed/compared with the reference (distinct by construction: the enumerators never repeat a tuple, sweeps differ in payload kind or shape)", exhaustive)
+	r.Finish("eight full products (A nil/value/reader payloads; B URL-encoded forms; C1 one-file contents; C2 form structures; C3 names; D1 upload sources and D2 reader payloads with Seek/ReadAt/WriteTo capabilities x honest/failing/lying x Close errors x a read fault at the k-th Read x chunking; D3 real FIFOs), each tuple executed once on Runtime.CreateHttpRequest and the sent body read to EOF; in D a delivered fault permits a failed build or send, every success is held to the exact-bytes oracle; non-trivial = a non-nil payload produced a request whose sent bytes were parsed/compared with the reference (distinct by construction: the enumerators never repeat a tuple, sweeps differ in payload kind, shape or source)", exhaustive)
 }
